@@ -121,6 +121,50 @@ def pred_compress_rank(inp):
     return None
 
 
+class BrokenTie(Exception):
+    pass
+
+
+def inplace_from_source(module=None):
+    """which variant of the contraction update the CURRENT source of cp_mode_dot has (selects the heap model variant):
+    True  for `factors[mode] *= factor` (the array is updated in place),
+    False for `factors[mode] = factors[mode] * factor` (or `factor * factors[mode]`): the product goes to a fresh array;
+    anything else is a broken tie (fail closed)."""
+    import ast, inspect, textwrap
+    if module is None:
+        import tensorly.cp_tensor as module
+    src = module if isinstance(module, str) else textwrap.dedent(inspect.getsource(module))
+    fn = [n for n in ast.walk(ast.parse(src)) if isinstance(n, ast.FunctionDef) and n.name == "cp_mode_dot"]
+    if len(fn) != 1:
+        raise BrokenTie("function cp_mode_dot not found")
+    branch = [n for n in ast.walk(fn[0]) if isinstance(n, ast.If) and isinstance(n.test, ast.Name) and n.test.id == "contract"]
+    if len(branch) != 1:
+        raise BrokenTie("`if contract:` branch of cp_mode_dot not found")
+
+    def is_slot(e):
+        return (isinstance(e, ast.Subscript) and isinstance(e.value, ast.Name) and e.value.id == "factors"
+                and isinstance(e.slice, ast.Name) and e.slice.id == "mode")
+
+    def is_factor(e):
+        return isinstance(e, ast.Name) and e.id == "factor"
+    found = []
+    for st in branch[0].body:
+        if isinstance(st, ast.AugAssign) and is_slot(st.target):
+            if isinstance(st.op, ast.Mult) and is_factor(st.value):
+                found.append(True)
+            else:
+                raise BrokenTie("unreadable in-place update of factors[mode]")
+        elif isinstance(st, ast.Assign) and any(is_slot(t) for t in st.targets):
+            v = st.value
+            if isinstance(v, ast.BinOp) and isinstance(v.op, ast.Mult) and ((is_slot(v.left) and is_factor(v.right)) or (is_factor(v.left) and is_slot(v.right))):
+                found.append(False)
+            else:
+                raise BrokenTie("unreadable assignment to factors[mode] in the contraction branch")
+    if len(found) != 1:
+        raise BrokenTie(f"{len(found)} updates of factors[mode] in the contraction branch of cp_mode_dot")
+    return found[0]
+
+
 PRED = {"cp_mode_dot_alias": pred_cp_mode_dot_alias, "svd_compress_rank": pred_compress_rank}
 ENTRY = {"cp_mode_dot_alias": "tensorly.cp_tensor.cp_mode_dot", "svd_compress_rank": "tensorly.preprocessing.svd_compress_tensor_slices"}
 CLASSIFIERS = {"inplace_product_into_shared_factor": clf_inplace_shared}
@@ -332,6 +376,14 @@ def run_round5(chk, rng, judge, mult, emit):
             chk.finding("tensorly.tucker_tensor.tucker_normalize", {"core": coreq, "fs": fsq}, f"tucker_normalize with {len(fsq)} factor(s): {st}", "tucker_normalize_constructor")
 
     # --- (D) the copy flag of cp_mode_dot on the heap: factor lists naming one array twice, caller's arrays / list afterwards
+    try:
+        inplace = inplace_from_source()
+        chk.cov["cp_mode_dot_contraction_update"] = "in place (factors[mode] *= factor)" if inplace else "fresh array (factors[mode] = factors[mode] * factor)"
+    except BrokenTie as e:
+        chk.broken.append({"what": "source tie broken: the update of the absorbing factor in cp_mode_dot's contraction branch could not be read off the source "
+                                   "(it selects the variant of the heap model)", "detail": str(e)})
+        chk.cov["cp_mode_dot_contraction_update"] = "unreadable"
+        inplace = True
     for it in range(40 * mult):
         N = rng.randint(1, 4)
         w, fs, feat = H.gen_cp(rng, N=N, maxdim=3)
@@ -372,7 +424,7 @@ def run_round5(chk, rng, judge, mult, emit):
             same = len(facs) == len(ls) and all(f is arrs[i] for f, i in zip(facs, ls))
             xl = f"(OpMat {zmat(x)})" if x.ndim == 2 else f"(OpVec {zrow(x)})"
             wl = "None" if w_idx is None else f"(Some {w_idx}%nat)"
-            emit(lambda: f"ZHeapDot {zmats(before)} {C.nat_list(ls)} {wl} {C.boolc(is_class)} {C.boolc(copy)} {xl} {mode}%nat {C.boolc(kd)} {H.zobj_res(st, out)} "
+            emit(lambda: f"ZHeapDot {C.boolc(inplace)} {zmats(before)} {C.nat_list(ls)} {wl} {C.boolc(is_class)} {C.boolc(copy)} {xl} {mode}%nat {C.boolc(kd)} {H.zobj_res(st, out)} "
                          f"{zmats(arrs)} [{'; '.join(C.boolc(b) for b in shared)}] {C.boolc(same)}",
                  ("cp_mode_dot", "heap", tuple(ls), is_class, copy, kind, mode))
             chk.hist("alias_pattern", "shared" if len(set(ls)) < len(ls) else "distinct")
